@@ -409,7 +409,7 @@ func (x *exec) compareWriteResp(s Step, obs Resp, exp Expect) *failure {
 				f := &failure{sig: "prewrite-accepted", msg: fmt.Sprintf("prewrite of key %d succeeded although: %s", p.K, p.Why)}
 				switch {
 				case strings.Contains(p.Why, "locked"):
-					f.owners, f.sig = []int{19}, "prewrite-overwrites-foreign-lock"
+					f.owners, f.sig = []int{18, 19}, "prewrite-overwrites-foreign-lock"
 				case strings.Contains(p.Why, "conflict"):
 					f.owners, f.sig = []int{18}, "prewrite-ignores-write-conflict"
 				default:
